@@ -138,7 +138,8 @@ static Scenario build(const std::string &spec) {
         }
     }
     const auto type = f.count("type") ? static_cast<err_type>(atoi(f["type"].c_str()) % ERR_MAX) : ERR_ACCESS_DENIED;
-    sc.err = new ErrorState(type == ERR_NONE ? ERR_ACCESS_DENIED : type, Http::scForbidden, sc.request.getRaw(), nullptr);
+    // page_id is the S flag of the line, not a by-product of the error type
+    sc.err = new ErrorState(type == ERR_NONE || type == ERR_SQUID_SIGNATURE ? ERR_ACCESS_DENIED : type, Http::scForbidden, sc.request.getRaw(), nullptr);
     auto &e = *sc.err;
     if (f.count("url")) e.url = dupz(f["url"]);
     if (f.count("xerrno")) e.xerrno = atoi(f["xerrno"].c_str()) % 200;
